@@ -25,12 +25,15 @@ def check(rep, model, tier):
         spec, _ = E.spec('midpoints', {'sig': SIG, 'flank': C(fl), 'n_flanks': n, 'start': st, 'end': en, 'bias': bias}, repo=model)
         rep.compare('MID-DEF', fl, site, impl, spec, ctx.unmodelled)
         # targeted queries
-        arrs = [x for x in T.walk(impl) if x[0] == 'arr'] if impl else []
-        if not arrs:
-            rep.unresolved('WINDOW', fl, site, 'no array of midpoints in the result')
-            continue
-        arr = max(arrs, key=lambda a: len(a[2]))
         lv = ('lv', ('range', C(0), n, C(1)), 0)
+        arrs = [x for x in T.walk(impl) if x[0] == 'arr'] if impl else []
+        if impl is not None and impl[0] == 'map' and impl[1] == lv[1]:
+            arr = ('arr', T.call('zeros', (n,)), ((lv, impl[2], T.TRUE),))        # one element definition per flank
+        elif arrs:
+            arr = max(arrs, key=lambda a: len(a[2]))
+        else:
+            rep.violation('WINDOW', fl, site, expected='one midpoint per flank, defined element-wise', found=T.brief(impl, 160) if impl else 'no value returned')
+            continue
         k_end = T.add(lv, T.add(T.neg(bias), C(1))) if fl == 'rise' else T.add(lv, bias)
         window = T.slice_(SIG, T.index(st, lv), T.add(T.index(en, k_end), C(1)))
         okw, why = True, []
